@@ -363,6 +363,10 @@ class PoolProp:
                 if diff is not None:
                     corr_fail = (case, diff)
         report.extra["steps_compared"] = total_steps
+        if tier == "thorough" and prop_fail is None:
+            soak = self.real_process_soak(report)
+            if soak is not None:
+                prop_fail = soak
 
         violations = 0
         lines = []
@@ -434,6 +438,46 @@ class PoolProp:
 
     def shrink_schedule(self, case):
         return case
+
+    real_scenarios = ()
+
+    def real_process_soak(self, report):
+        """real multiprocessing runs under a wall-clock watchdog (process group killed); a scenario is a failure only if it
+        fails three times out of three"""
+        import signal
+        import subprocess
+        import sys as _sys
+        results = {}
+        for name in self.real_scenarios:
+            outcomes = []
+            for attempt in range(3):
+                p = subprocess.Popen([_sys.executable, "-m", "harness.realpool", name], cwd=core.VERIF,
+                                     stdout=subprocess.PIPE, stderr=subprocess.STDOUT, text=True, start_new_session=True)
+                try:
+                    out, _ = p.communicate(timeout=90)
+                    outcomes.append("ok" if (p.returncode == 0 and "DONE" in out) else "wrong:" + out.strip()[-200:])
+                except subprocess.TimeoutExpired:
+                    outcomes.append("hang")
+                finally:
+                    try:
+                        os.killpg(p.pid, signal.SIGKILL)
+                    except Exception:
+                        pass
+                    try:
+                        p.communicate(timeout=5)
+                    except Exception:
+                        pass
+                if outcomes[-1] == "ok":
+                    break
+            results[name] = outcomes
+            report.count("real:" + outcomes[-1].split(":")[0])
+        report.extra["real_process_runs"] = results
+        for name, outcomes in results.items():
+            if len(outcomes) == 3 and all(o != "ok" for o in outcomes):
+                case = {"cfg": {"real_scenario": name}, "chooser": ["real-processes"], "schedule": [], "label": "real-process soak",
+                        "status": outcomes[-1]}
+                return (case, f"real-process scenario {name} failed three times out of three: {outcomes}", "real-process")
+        return None
 
     def cfg_from_json(self, d):
         return Cfg(**d)
